@@ -108,7 +108,7 @@ GUARDS = [
 ]
 
 
-@rule('C20', 'C20.R2', 'guards that must raise: missing essential entries and incompatible options are rejected at construction', floor=13)
+@rule('C20', 'C20.R2', 'guards that must raise: missing essential entries and incompatible options are rejected at construction', floor=14)
 def r2(ctx, R):
     repo = ctx.repo
     for rel, name, err, mention, what in GUARDS:
@@ -121,6 +121,11 @@ def r2(ctx, R):
         R.fn(w)
         hits = _raises(fn, err, mention)
         R.check(bool(hits), f'{cn}.{fn.name} :: {what} -> {err}', w, f'raise {err} under a guard mentioning {mention}', hits[:1] or 'no such raise')
+        if what == 'PFASST without the right end point as node':
+            cfg = FuncCFG(fn)
+            rs = [s_ for s_ in cfg.stmt_of.values() if isinstance(s_, ast.Raise) and 'right_is_node' in ' '.join(facts.guard_strings(cfg, s_))]
+            its = [ast.unparse(l.iter) for s_ in rs for l in cfg.loops_of[id(s_)] if isinstance(l, ast.For)]
+            R.check(its == ['self.MS', 'S.levels'], f'{cn}.{fn.name} :: the end-point requirement is checked on every level of every step', w, 'for S in self.MS: for L in S.levels: ...', its)
 
 
 @rule('C20', 'C20.R3', 'frozen classes freeze on every normal exit of __init__; __setattr__ rejects undeclared names; only the sanctioned __dict__ bypasses exist', floor=17)
@@ -300,3 +305,36 @@ def r6(ctx, R):
                 R.exc(c, w, exc)
             else:
                 R.bad(c, w, 'defaults first, user parameters last (a user value must win)', f'{kind} store of {key!r} overrides the user value')
+
+
+DESCRIPTION_DICTS = {'params', 'description', 'descr', 'controller_params', 'level_params', 'sweeper_params', 'problem_params', 'pars', 'step_params', 'descr_new'}
+
+
+@rule('C20', 'C20.R7', 'constructors do not consume the caller\'s description: no pop/del/clear on a description or parameter dict in core / controller / sweeper construction code', floor=1)
+def r7(ctx, R):
+    """A description is interpreted consistently only if constructing from it twice gives the same result: the fallback
+    path of controller_nonMPI.__init__ (Step(description) per step when dill.copy fails) and every re-use of a description
+    by the caller read the same dict again."""
+    repo = ctx.repo
+    n = 0
+    for m, ci, fn in repo.all_functions():
+        if not (m.relpath.startswith('pySDC/core/') or 'controller_classes' in m.relpath or 'sweeper_classes' in m.relpath):
+            continue
+        if fn.name not in ('__init__', 'setup', '__generate_hierarchy', '__dict_to_list', 'connect_levels', 'add_convergence_controller', 'setup_convergence_controllers'):
+            continue
+        n += 1
+        bad = []
+        for x in ast.walk(fn):
+            if isinstance(x, ast.Call) and isinstance(x.func, ast.Attribute) and x.func.attr in ('pop', 'popitem', 'clear') and isinstance(x.func.value, ast.Name) and x.func.value.id in DESCRIPTION_DICTS:
+                bad.append(ast.unparse(x)[:60])
+            if isinstance(x, ast.Delete):
+                for t in x.targets:
+                    if isinstance(t, ast.Subscript) and isinstance(t.value, ast.Name) and t.value.id in DESCRIPTION_DICTS:
+                        bad.append(ast.unparse(x)[:60])
+        name = (ci.name + '.' if ci else '') + fn.name
+        if bad:
+            R.bad(f'{name} :: removes entries from a caller-owned parameter dict', qual(m, ci, fn), 'read (or copy) the description, never consume it', bad)
+    R.ok('construction code :: scan for pop/del/clear on description dicts', 'pySDC/core + controller_classes + sweeper_classes', found=f'{n} construction functions scanned')
+    pc = ast.parse("def __init__(self, params):\n    c = params.pop('collocation_class', None)\n").body[0]
+    if not any(isinstance(x, ast.Call) and isinstance(x.func, ast.Attribute) and x.func.attr == 'pop' for x in ast.walk(pc)):
+        raise AnalysisError('C20.R7 positive control broken')
